@@ -113,8 +113,9 @@ type Finding struct {
 }
 
 // loadFindings parses /verif/known_findings.txt. Line formats:
-//   known: property=<id> key="<rule> <construct>" <what fails>
-//   fixed: property=<id> <commit> <what failed>          (suppresses nothing)
+//
+//	known: property=<id> key="<rule> <construct>" <what fails>
+//	fixed: property=<id> <commit> <what failed>          (suppresses nothing)
 func loadFindings(path string) ([]Finding, error) {
 	b, err := os.ReadFile(path)
 	if err != nil {
@@ -171,21 +172,21 @@ func loadFindings(path string) ([]Finding, error) {
 // ---- result / evidence ----
 
 type Result struct {
-	Prop       string
-	Tier       string
-	Seed       int
-	Obls       []*Obligation
-	Floors     []Floor
-	Notes      []string
-	Rules      map[string]string
-	Configs    []string
-	Pkgs       int
-	Funcs      int
-	Stats      map[string]int
-	Fatal      []string
-	Insens     []string
-	Mutations  int
-	Start      time.Time
+	Prop      string
+	Tier      string
+	Seed      int
+	Obls      []*Obligation
+	Floors    []Floor
+	Notes     []string
+	Rules     map[string]string
+	Configs   []string
+	Pkgs      int
+	Funcs     int
+	Stats     map[string]int
+	Fatal     []string
+	Insens    []string
+	Mutations int
+	Start     time.Time
 }
 
 func (r *Result) merge(c *Ctx) {
@@ -232,11 +233,11 @@ func (r *Result) finish(verifDir string, findings []Finding) int {
 		return a.Key < b.Key
 	})
 	type vio struct {
-		Kind   string      `json:"kind"`
-		Obl    *Obligation `json:"obligation,omitempty"`
-		Floor  *Floor      `json:"floor,omitempty"`
-		Fatal  string      `json:"fatal,omitempty"`
-		RuleDoc string     `json:"rule_doc,omitempty"`
+		Kind    string      `json:"kind"`
+		Obl     *Obligation `json:"obligation,omitempty"`
+		Floor   *Floor      `json:"floor,omitempty"`
+		Fatal   string      `json:"fatal,omitempty"`
+		RuleDoc string      `json:"rule_doc,omitempty"`
 	}
 	var vios []vio
 	discharged, nontriv := 0, 0
@@ -315,25 +316,25 @@ func (r *Result) finish(verifDir string, findings []Finding) int {
 		"seed":        r.Seed,
 		"level":       "other",
 		"coverage": map[string]any{
-			"explanation":         "static necessary-condition analysis of /repo's current source (go/packages + go/types + go/cfg); rules applied: " + strings.Join(ruleDocs, " | "),
-			"obligations":         len(r.Obls),
-			"discharged":          discharged,
-			"evaluations":         len(r.Obls),
-			"distinct_nontrivial": nontriv,
-			"rule":                "one obligation per (rule, construct); non-trivial = carries a guard/path/lock/writer-set requirement that was evaluated; distinct by rule+construct key",
-			"samples":             samples,
-			"per_rule":            perRule,
-			"instance_floors":     r.Floors,
-			"build_configs":       r.Configs,
-			"packages_loaded":     r.Pkgs,
-			"functions_indexed":   r.Funcs,
-			"stats":               r.Stats,
-			"known_findings_hit":  len(knownHit),
+			"explanation":           "static necessary-condition analysis of /repo's current source (go/packages + go/types + go/cfg); rules applied: " + strings.Join(ruleDocs, " | "),
+			"obligations":           len(r.Obls),
+			"discharged":            discharged,
+			"evaluations":           len(r.Obls),
+			"distinct_nontrivial":   nontriv,
+			"rule":                  "one obligation per (rule, construct); non-trivial = carries a guard/path/lock/writer-set requirement that was evaluated; distinct by rule+construct key",
+			"samples":               samples,
+			"per_rule":              perRule,
+			"instance_floors":       r.Floors,
+			"build_configs":         r.Configs,
+			"packages_loaded":       r.Pkgs,
+			"functions_indexed":     r.Funcs,
+			"stats":                 r.Stats,
+			"known_findings_hit":    len(knownHit),
 			"sensitivity_mutations": r.Mutations,
-			"insensitive":         r.Insens,
-			"notes":               r.Notes,
-			"checker_cmd":         "bin/tvc -property " + r.Prop + " -tier " + r.Tier,
-			"trusted_base":        []string{"go/types", "golang.org/x/tools v0.29.0 (go/packages, go/cfg)", "rule tables in /verif/tvc"},
+			"insensitive":           r.Insens,
+			"notes":                 r.Notes,
+			"checker_cmd":           "bin/tvc -property " + r.Prop + " -tier " + r.Tier,
+			"trusted_base":          []string{"go/types", "golang.org/x/tools v0.29.0 (go/packages, go/cfg)", "rule tables in /verif/tvc"},
 		},
 		"assumptions": []string{
 			"decides structural necessary conditions, not the runtime behaviour",
